@@ -14,12 +14,12 @@ QUERIES = [
 # K6: the real BackendWorker::_cleanup_invalidated_thread_contexts (query defined in C03.py, harness/C03_k3.cpp)
 import importlib.util as _iu, os as _os
 _s3 = _iu.spec_from_file_location('c03', _os.path.join(_os.path.dirname(__file__), 'C03.py')); _m3 = _iu.module_from_spec(_s3); _m3.Q = Q; _s3.loader.exec_module(_m3)
-QUERIES += [q for q in _m3.QUERIES if q.name.startswith('K6_cleanup') or q.name.startswith('K7_update') or q.name.startswith('K2_teb_life')]
+QUERIES += [q for q in _m3.QUERIES if q.name.startswith('K6_cleanup') or q.name.startswith('K7_cache') or q.name.startswith('K2_teb_life')]
 BOUNDS = 'up to 65535 pending exited threads; single step each; backend ring life cycle (grow, drain, shrink, refill) for requested capacities 3, 5, 6 (quick) / 8 (thorough)'
 OUTSIDE = 'thread-local destructor timing (OS/runtime)'
 ASSUMPTIONS = ['counter pre-state = what N real fetch_add(1) leave in the atomic (its own arithmetic), SC atomics (single RMW location)']
 MANIFEST = {
- 'text': 'Solver-decided inductive steps over the real ThreadContextManager counter that gates the backend clean-up, with the number of pending exited threads symbolic up to 65535 so that any counter-width wrap is inside the explored state space; the counter under exit/reclaim interleavings with the release/acquire shim; and K6, the real BackendWorker::_cleanup_invalidated_thread_contexts hands a context back for reclamation iff its thread exited and both its queue and its backend ring are empty - never with buffered statements - all such contexts in the same call, the others staying cached (registry calls are hooks).',
+ 'text': 'Solver-decided inductive steps over the real ThreadContextManager counter that gates the backend clean-up, with the number of pending exited threads symbolic up to 65535 so that any counter-width wrap is inside the explored state space; the counter under exit/reclaim interleavings with the release/acquire shim; and K6, the real BackendWorker::_cleanup_invalidated_thread_contexts hands a context back for reclamation iff its thread exited and both its queue and its backend ring are empty - never with buffered statements - all such contexts in the same call, and K7, the real cache refresh caches every registered context (also an exited, drained one), so none is retained for ever; K2 life cycle, the backend ring shrinks back to its starting capacity on request without losing or reordering anything, for requested capacities that are not powers of two; the others staying cached (registry calls are hooks).',
  'note': 'Kernels only (counter gate, registry removal, queue shrink via C02 queries); end-to-end thread exit/TLS destruction is OS behaviour and outside. Trusted: clang IR, translator, CBMC.',
  'technique': 'CBMC/SAT inductive step over the real counter/registry code with symbolic 16-bit pending count; native replay',
 }
